@@ -32,7 +32,7 @@ MODES_FULL = MODES_QUICK + [{"optimize": True, "power_pole_type": "big"}, {"opti
 
 def run(tier):
     cr = CheckRun("C08", tier, "other", EXPLANATION, "DESIGN §4 C08")
-    cr.contracts(["contracts.c08"])
+    cr.contracts(["contracts.c08", "contracts.c12"])
     from pyvc import guards
     cr.ext_obligations.append(guards.guarded_returns(
         "dsl_compiler/src/layout/connection_planner.py::RelayNetwork._find_or_create_relay_near",
